@@ -184,3 +184,7 @@ mod tests {
         assert!(detect_format_from_path_extension("out.fa").is_none());
     }
 }
+
+#[cfg(kani)]
+#[path = "/verif/harness/util/variant_writer_builder.rs"]
+mod verif_kani;
